@@ -59,8 +59,12 @@ def _evict():
 def stream_params(stream: str, i: int, rng: random.Random) -> dict:
     """package generation parameters and job options for case i of a stream"""
     if stream == "base":
-        return {"gen": {"style": STYLES[i % 4], "keywords": i % 3 == 0, "nmods": 2 + i % 3},
+        return {"gen": {"style": STYLES[i % 4], "keywords": i % 3 == 0, "nmods": 2 + i % 3, "private_root": i % 16 == 9},
                 "job": {"nc": bool((i // 4) % 2), "tsp": "code", "tsw": "warn"}}
+    if stream == "doc":
+        # docstring-heavy packages: parameter and result types in the docstrings, named and unnamed result entries
+        return {"gen": {"style": ["numpydoc", "numpydoc", "google", "rest"][i % 4], "doc_types": True, "nmods": 2, "keywords": False},
+                "job": {"nc": False, "tsp": "code", "tsw": "warn"}}
     raise ValueError(stream)
 
 
